@@ -482,7 +482,9 @@ impl Invocations
 		if color == "never" && (ran.stdout.contains(&0x1b) || ran.stderr.contains(&0x1b))
 		{
 			let src_has_esc = files.iter().any(|(_, s)| s.contains('\u{1b}'));
-			if !src_has_esc
+			// the program's own output is passed through as it is
+			let program_prints_esc = expected_exec.as_ref().map(|e| e.stdout.contains(&0x1b)).unwrap_or(false);
+			if !src_has_esc && !program_prints_esc
 			{
 				out.fail(format!("{}: escape sequences with --color=never", sub), detail());
 				return Ok(());
